@@ -409,6 +409,11 @@ class Array(AbstractValueWithQuantityObject, Generic[ValuesType]):
             q2 = Quantity.CreateEmpty()
 
         else:
+            if len(p1.values) != len(p2.values):
+                raise ValueError(
+                    "Unable to operate on arrays of different lengths (%d != %d)"
+                    % (len(p1.values), len(p2.values))
+                )
             values_iteration = _ValueGenerator(p1.values, p2.values)
             q1 = p1.GetQuantity()
             q2 = p2.GetQuantity()
